@@ -41,81 +41,152 @@ def _bool(b):
     return 'true' if b else 'false'
 
 
+_TRK_ATTRS = ('todo', 'computed', 'iteration_number', 'iterations', 'tolerance')
+_MISSING = object()
+
+
+def _public_values(obj):
+    """every public non-callable attribute / property of a singleton, read through the object (values by repr)"""
+    out = {}
+    for name in dir(type(obj)):
+        if name.startswith('_') or name == 'ns':
+            continue
+        try:
+            v = getattr(obj, name)
+        except Exception as exc:   # noqa
+            out[name] = f'!{type(exc).__name__}'
+            continue
+        if not callable(v):
+            out[name] = repr(v)
+    return out
+
+
+def _ns_of(obj):
+    for name in ('ns', '_ns'):
+        try:
+            v = getattr(obj, name)
+        except Exception:   # noqa
+            continue
+        if v is not None:
+            return v
+    return obj
+
+
+def _mutable_ids(ns):
+    """identity of every mutable container a thread reaches through the namespace (instance or class level)"""
+    out = {}
+    for k in set(dir(ns)):
+        if k.startswith('__'):
+            continue
+        try:
+            v = getattr(ns, k)
+        except Exception:   # noqa
+            continue
+        if isinstance(v, (set, list, dict)):
+            out[k] = id(v)
+    return out
+
+
 def probe_tracker():
+    """behavioural: whatever one thread does through the tracker's public surface must be invisible to another thread,
+    for every public attribute, and no mutable container may be the same object on two threads"""
     from pycel.excelutil import iterative_eval_tracker as trk
     import pycel.excelcompiler as ec
     assert ec.iterative_eval_tracker is trk
-    sentinel = object()
+    s1, s2 = object(), object()
     gate1, gate2 = threading.Event(), threading.Event()
     seen = {}
 
     def first():
-        trk(7, 0.5)
-        trk.calced(sentinel)
-        trk.wip(sentinel)
-        gate1.set()
+        try:
+            trk(7, 0.5)
+            trk.inc_iteration_number()
+            trk.calced(s1)
+            trk.wip(s1)
+            seen['ids1'] = _mutable_ids(_ns_of(trk))
+            seen['before'] = (_public_values(trk), trk.is_calced(s1), trk.is_calced(s2), trk.done)
+        finally:
+            gate1.set()
         gate2.wait(10)
-        seen['tol_after'] = trk.tolerance
-        seen['calced_after'] = trk.is_calced(sentinel)
-        seen['done_after'] = trk.done
+        seen['after'] = (_public_values(trk), trk.is_calced(s1), trk.is_calced(s2), trk.done)
 
     def second():
         gate1.wait(10)
         try:
-            seen['other_sees_calced'] = trk.is_calced(sentinel)
+            seen['other_sees'] = trk.is_calced(s1)
             trk(9, 0.25)
             trk.inc_iteration_number()
+            trk.inc_iteration_number()
+            trk.calced(s2)
+            trk.wip(s2)
+            seen['ids2'] = _mutable_ids(_ns_of(trk))
+            seen['other_tol'] = trk.tolerance
         finally:
             gate2.set()
 
     a, b = threading.Thread(target=first), threading.Thread(target=second)
     a.start(), b.start(), a.join(), b.join()
-    behavioural = (seen.get('other_sees_calced') is False and seen.get('tol_after') == 0.5 and
-                   seen.get('calced_after') is True and seen.get('done_after') is False)
-    static = isinstance(getattr(type(trk), '_ns', None), threading.local)
-    # nothing may be kept on the singleton itself
-    static = static and not vars(trk)
+    shared_objs = sorted(k for k, v in seen.get('ids1', {}).items() if seen.get('ids2', {}).get(k) == v)
+    local = ('before' in seen and seen.get('before') == seen.get('after') and seen.get('other_sees') is False and
+             seen['before'][1] is True and seen['before'][2] is False and seen.get('other_tol') == 0.25 and
+             not shared_objs)
 
     def lazy():
-        ns = trk.ns
-        return dict(vars(ns))
+        ns = _ns_of(trk)
+        return {k: getattr(ns, k) for k in _TRK_ATTRS if getattr(ns, k, _MISSING) is not _MISSING}
     lazy_attrs = _on_thread(lazy)
 
     def call_sets():
-        ns = trk.ns
-        marks, old = {}, dict(vars(ns))
+        ns = _ns_of(trk)
+        marks, old = {}, {k: getattr(ns, k, _MISSING) for k in _TRK_ATTRS}
         try:
-            for k in ('todo', 'computed', 'iteration_number', 'iterations', 'tolerance'):
+            for k in _TRK_ATTRS:
                 marks[k] = object()
                 setattr(ns, k, marks[k])
             trk(3, 0.5)
-            return sorted(k for k in marks if getattr(trk.ns, k) is not marks[k])
+            return sorted(k for k in marks if getattr(_ns_of(trk), k) is not marks[k])
         finally:                      # (matters only if the namespace is NOT per thread)
             for k in marks:
-                if k in old:
-                    setattr(ns, k, old[k])
-                else:
-                    try:
+                try:
+                    if old[k] is _MISSING:
                         delattr(ns, k)
-                    except AttributeError:
-                        pass
-    return behavioural and static, lazy_attrs, _on_thread(call_sets)
+                    else:
+                        setattr(ns, k, old[k])
+                except Exception:   # noqa
+                    pass
+    try:
+        call = _on_thread(call_sets)
+    except Exception:   # noqa
+        call = []
+    return local, lazy_attrs, call
 
 
 def probe_ctx():
+    """behavioural, including the hand-over between __call__ and __enter__, and the very first `with` of a thread"""
     from pycel.excelutil import in_array_formula_context as ctx
     import pycel.excelformula as ef
     import pycel.lib.logical as lg
     assert ef.in_array_formula_context is ctx and lg.in_array_formula_context is ctx
-    gate1, gate2 = threading.Event(), threading.Event()
+    gate1, gate2, gate3, gate4 = (threading.Event() for _ in range(4))
     seen = {}
-    marker = object()
+    m1, m2, m3 = object(), object(), object()
 
     def first():
-        with ctx(marker):
-            gate1.set()
-            gate2.wait(10)
-            seen['mine'] = ctx.ctx_address is marker
+        try:
+            with ctx(m1):
+                seen['first_with'] = ctx.ctx_address is m1      # first `with` of a brand-new thread
+                gate1.set()
+                gate2.wait(10)
+                seen['mine'] = ctx.ctx_address is m1
+            pending = ctx(m2)                                   # __call__ ... the other thread runs ... __enter__
+            gate3.set()
+            gate4.wait(10)
+            pending.__enter__()
+            seen['handover'] = ctx.ctx_address is m2
+            pending.__exit__(None, None, None)
+            seen['restored'] = ctx.ctx_address is False
+        finally:
+            gate1.set(), gate3.set()
 
     def second():
         gate1.wait(10)
@@ -125,12 +196,23 @@ def probe_ctx():
                 pass
         finally:
             gate2.set()
+        gate3.wait(10)
+        try:
+            with ctx(m3):
+                pass
+            ctx(None)
+        finally:
+            gate4.set()
     a, b = threading.Thread(target=first), threading.Thread(target=second)
     a.start(), b.start(), a.join(), b.join()
-    behavioural = seen.get('mine') is True and seen.get('other') is False
-    static = isinstance(getattr(type(ctx), '_ns', None), threading.local) and not vars(ctx)
-    lazy_attrs = _on_thread(lambda: dict(vars(ctx.ns)))
-    return behavioural and static, lazy_attrs
+    local = seen.get('mine') is True and seen.get('other') is False and seen.get('handover') is True and \
+        seen.get('restored') is True
+    fresh_ok = seen.get('first_with') is True
+
+    def lazy():
+        ns = _ns_of(ctx)
+        return {k: getattr(ns, k) for k in ('ctx_addresses', '_ctx_address') if getattr(ns, k, _MISSING) is not _MISSING}
+    return local, _on_thread(lazy), fresh_ok
 
 
 def probe_func_meta():
@@ -252,14 +334,14 @@ def shared_written():
 
 def measure():
     trk_local, trk_lazy, trk_call = probe_tracker()
-    ctx_local, ctx_lazy = probe_ctx()
+    ctx_local, ctx_lazy, ctx_fresh = probe_ctx()
     meta_shared, meta_readers = probe_func_meta()
     return dict(trk_local=trk_local, trk_lazy=trk_lazy, trk_call=trk_call, ctx_local=ctx_local, ctx_lazy=ctx_lazy,
-                meta_shared=meta_shared, meta_readers=meta_readers, ctr_shared=probe_ctr(),
+                meta_shared=meta_shared, meta_readers=meta_readers, ctr_shared=probe_ctr(), ctx_fresh=ctx_fresh,
                 shared_written=shared_written())
 
 
-_FAILED = dict(trk_local=False, trk_lazy={}, trk_call=[], ctx_local=False, ctx_lazy={}, meta_shared=True,
+_FAILED = dict(ctx_fresh=False, trk_local=False, trk_lazy={}, trk_call=[], ctx_local=False, ctx_lazy={}, meta_shared=True,
                meta_readers=[], ctr_shared=True, shared_written=['<tablegen failed>'])
 
 
@@ -279,7 +361,7 @@ def threads():
     else:
         tol_l = 'none'
     body = 'namespace Pycel.Gen.Threads\n\n'
-    body += '/-- iterative_eval_tracker: writes of one thread invisible to another, `_ns` is a threading.local -/\n'
+    body += '/-- iterative_eval_tracker: nothing one thread does through its public surface is visible to another, no container shared -/\n'
     body += f'def trackerNsThreadLocal : Bool := {_bool(m["trk_local"])}\n'
     body += '/-- in_array_formula_context: likewise -/\n'
     body += f'def ctxNsThreadLocal : Bool := {_bool(m["ctx_local"])}\n'
@@ -291,6 +373,8 @@ def threads():
     body += f'def trackerCallSets : List String := {_lean_str_list(m["trk_call"])}\n'
     body += '/-- attributes the lazy `_ArrayFormulaContext.ns` creates on a fresh thread -/\n'
     body += f'def ctxLazy : List String := {_lean_str_list(sorted(m["ctx_lazy"]))}\n'
+    body += '/-- the first `with in_array_formula_context(addr)` of a brand-new thread sees addr -/\n'
+    body += f'def ctxFreshFirstWith : Bool := {_bool(m["ctx_fresh"])}\n'
     body += '/-- apply_meta stores name_space in the function\'s module-level metadata dict (last binder wins) -/\n'
     body += f'def funcMetaShared : Bool := {_bool(m["meta_shared"])}\n'
     body += '/-- library functions that read excel_func_meta[\'name_space\'] at call time -/\n'
